@@ -453,7 +453,9 @@ fn conformance(rep: &mut Report, root: &std::path::Path) {
             spec.threads = 1;
             let r = wk.run(&spec);
             if r.code != Some(0) {
-                rep.machinery(format!("conformance: the single-thread reference run of {} failed: {}", cbn, r.stderr.lines().next().unwrap_or("")));
+                // an observation like any other: runs with more workers that succeed differ from it (a verdict); runs that fail in
+                // the same way do not (then the failure is not a matter of scheduling - C01 / C14 judge it)
+                rep.count(&format!("note:single-thread-reference-run-failed:{}", cbn), 1);
             }
             reference.insert(cbn, crate::hx::observe(&r, &wk.dir));
             let bad = match cbn {
